@@ -82,6 +82,8 @@ class Sym(object):
 
 def _mk_bin(fname, rev):
   def dunder(self, other, *extra):
+    if isinstance(other, Boom):
+      raise ZeroDivisionError("boom")
     o = lift(other)
     if o is None or extra:
       return NotImplemented
@@ -97,6 +99,23 @@ def _mk_un(fname):
 
 for _d, (_f, _rev, _ar) in DUNDERS.items():
   setattr(Sym, _d, _mk_bin(_f, _rev) if _ar == 2 else _mk_un(_f))
+
+
+class Boom(Sym):
+  """A symbolic element (term TVar "boom" i) for which EVERY operator raises ZeroDivisionError, on either
+  side (being a subclass of Sym, its reflected methods are tried first when it is the right operand)."""
+  __slots__ = ()
+
+
+def _mk_boom(*unused):
+  def dunder(self, *args):
+    raise ZeroDivisionError("boom")
+  return dunder
+
+
+for _d in DUNDERS:
+  setattr(Boom, _d, _mk_boom())
+Boom.__abs__ = _mk_boom()
 
 
 def sym_eq(a, b):
@@ -212,4 +231,6 @@ def to_sym(t):
   """Python object for an element term: symbolic terms become Sym, TCst stays an int."""
   if t[0] == "c":
     return t[1]
+  if t[0] == "v" and t[1] == "boom":
+    return Boom(t)
   return Sym(t)
